@@ -336,7 +336,7 @@ Definition dbg_union_body (name : option string) : block :=
   let data := ELet false "data"
                 (EUnsafe [ECall (EPath (RCore ["slice"; "from_raw_parts"]))
                             [ECast (ECast (EVar "self") [P "*"; I "const"; I "Self"])
-                                   [P "*"; I "const"; I "u8"];
+                                   const_u8_ty;
                              EVar "size"]]) in
   match name with
   | Some n =>
